@@ -1,6 +1,8 @@
 import OjgVerif.Common.Driver
 import OjgVerif.Match.Model
 import OjgVerif.Match.Support
+import OjgVerif.Match.Tokenizer
+import OjgVerif.Json.Tables
 /-! Driver ops of the `match` family (line protocol, see `Common/Driver.lean`).
 
 A document travels in the text of `JV.render` with the members in DOCUMENT order (floats:
@@ -20,7 +22,11 @@ blank. A normalized path is `$` followed by `.K(<hex>)` and `[<n>]`.
 * `streamed <dev> <i|s|is> <targets> <doc>` — what the recorded deviations predict for a target set
   without filters: `expected (targets.map (asStreamedWith idx sl)) doc` (`i`: from-the-end indexes and
   union members select nothing, `s`: a slice selects every index; `is` is `C17_streamed`'s right-hand
-  side). `n/a` for a set with a filter, and for `s` under a matcher that applies slice bounds -/
+  side). `n/a` for a set with a filter, and for `s` under a matcher that applies slice bounds
+* `tok <0|1> <chunks>` — the token events of the tokenizer model (`tokEvents ojTables (tokCfg reader)`,
+  Match/Tokenizer.lean) on the read results `<chunks>` (hex, joined by `,`, `-` an empty read; `_` for no read at all;
+  `1`: `Tokenizer.Load`, `0`: `Tokenizer.Parse` on the first chunk): the events joined by a blank
+  (`{` `}` `[` `]` `K(<hex>)` `L<value>`; `-` if none), then `|ok <number of documents>` or `|err` -/
 namespace OjgVerif.Match
 open OjgVerif
 
@@ -191,7 +197,32 @@ def pathText (p : NPath) : String := "$" ++ String.join (p.map segText)
 def callbacksText (cs : List (NPath × JV)) : String :=
   if cs.isEmpty then "-" else String.intercalate ";" (cs.map fun c => pathText c.1 ++ "|" ++ c.2.render)
 
+def eventText : Event → String
+  | .objStart => "{"
+  | .objEnd => "}"
+  | .arrStart => "["
+  | .arrEnd => "]"
+  | .key k => "K(" ++ toHexF k ++ ")"
+  | .leaf v => "L" ++ v.render
+
+def readChunks (s : String) : Option (List Bytes) :=
+  if s = "_" then some [] else (s.splitOn ",").mapM ofHex
+
+def tokText (reader : Bool) (chunks : List Bytes) : String :=
+  let evs := tokEvents Json.ojTables (tokCfg reader) chunks
+  let out := match Json.run Json.ojTables (tokCfg reader) chunks with
+    | .ok docs => "ok " ++ toString docs.length
+    | .error _ => "err"
+  (if evs.isEmpty then "-" else String.intercalate " " (evs.map eventText)) ++ "|" ++ out
+
 def handle : List String → String
+  | ["tok", rd, chunks] =>
+    match readChunks chunks with
+    | some cs =>
+      if rd = "1" then tokText true cs
+      else if rd = "0" then tokText false cs
+      else "bad-op"
+    | none => "bad-op"
   | ["run", dev, tgs, doc] =>
     match readDev dev, readTargets tgs, readJV doc with
     | some dv, some ts, some d => callbacksText (matchRun dv ts (events d))
